@@ -264,6 +264,9 @@ pub struct Cfg {
     pub events: bool,
     /// Clients whose app is built with one extra replication rule (a different protocol).
     pub mismatch: Vec<usize>,
+    /// Register a command marker that asks for history (`need_history`) and custom write
+    /// functions for `A`; every replicated entity on a client carries the marker.
+    pub hist: bool,
 }
 
 impl Default for Cfg {
@@ -285,8 +288,45 @@ impl Default for Cfg {
             tick_offset: 0,
             events: false,
             mismatch: vec![],
+            hist: false,
         }
     }
+}
+
+/// Marker of the history-keeping write path (see `Cfg::hist`).
+#[derive(Component)]
+pub struct HistMarker;
+
+/// Every value of `A` received for the entity, with the tick of its message.
+#[derive(Component, Default)]
+pub struct AHist(pub Vec<(u32, Val)>);
+
+/// Write function under `HistMarker`: records every received value; only a value that is not
+/// older than the entity's last confirmed tick becomes the current one.
+fn write_hist_a(
+    ctx: &mut bevy_replicon::shared::replication::replication_registry::ctx::WriteCtx,
+    rule_fns: &bevy_replicon::shared::replication::replication_registry::rule_fns::RuleFns<A>,
+    entity: &mut bevy_replicon::shared::replication::deferred_entity::DeferredEntity,
+    message: &mut Bytes,
+) -> bevy::ecs::error::Result<()> {
+    let value: A = rule_fns.deserialize(ctx, message)?;
+    let newest = entity
+        .get::<bevy_replicon::client::confirm_history::ConfirmHistory>()
+        .is_none_or(|h| h.last_tick() <= ctx.message_tick);
+    let rec = (ctx.message_tick.get(), value.0);
+    if let Some(mut h) = entity.get_mut::<AHist>() {
+        h.0.push(rec);
+    } else {
+        entity.insert(AHist(vec![rec]));
+    }
+    if newest {
+        if let Some(mut a) = entity.get_mut::<A>() {
+            *a = value;
+        } else {
+            entity.insert(value);
+        }
+    }
+    Ok(())
 }
 
 /// Ticks announced by `MutateTickReceived`, in order of observation.
@@ -374,6 +414,14 @@ pub fn build_app_with(cfg: &Cfg, extra_rule: bool) -> App {
     }
     if extra_rule {
         app.replicate::<Extra>();
+    }
+    if cfg.hist {
+        use bevy_replicon::shared::replication::{command_markers::MarkerConfig, replication_registry::command_fns};
+        app.register_marker_with::<HistMarker>(MarkerConfig { need_history: true, ..Default::default() })
+            .set_marker_fns::<HistMarker, A>(write_hist_a, command_fns::default_remove::<A>);
+        app.add_observer(|t: Trigger<OnAdd, Replicated>, mut commands: Commands| {
+            commands.entity(t.target()).insert(HistMarker);
+        });
     }
     app.finish();
     app.cleanup();
@@ -1352,6 +1400,50 @@ impl Sim {
     /// C12 (end to end): `MutateTickReceived` / `ServerMutateTicks` must report a tick exactly
     /// when every mutate message the server sent for it to this client has been *applied*
     /// (delivered and no longer waiting for its update tick), and exactly once.
+    /// C12 with a history-keeping marker: the tick of every mutate message that was applied to an
+    /// entity (and lies inside the 64-tick window) is answered as confirmed by the entity's history.
+    pub fn check_history(&self, c: usize, view: &ClientView) -> Result<(), Violation> {
+        use bevy_replicon::{client::confirm_history::ConfirmHistory, prelude::RepliconTick};
+        if self.acks.format_unknown {
+            return Ok(());
+        }
+        for m in self.acks.all.iter().filter(|m| m.client == c) {
+            if !self.acks.delivered.contains(&(c, m.id)) || tick_older(view.update_tick, m.update_tick) {
+                continue;
+            }
+            let etags: BTreeSet<u8> = m.payloads.iter().map(|p| p.0).collect();
+            for etag in etags {
+                let Some(e) = self.ent(etag - 1) else { continue };
+                let Some(ce) = view.ents.get(&e.to_bits()) else { continue };
+                let Some(h) = self.clients[c].app.world().get::<ConfirmHistory>(Entity::from_bits(ce.client_bits)) else {
+                    continue;
+                };
+                let last = h.last_tick().get();
+                let ago = last.wrapping_sub(m.tick);
+                if tick_older(last, m.tick) {
+                    return Err(Violation::new(
+                        "",
+                        "applied-tick-not-confirmed",
+                        format!("client c{c} entity {}: a mutate message of tick {} was applied but the last confirmed tick is {last}", fmt_bits(e.to_bits()), m.tick),
+                    ));
+                }
+                if ago < 64 && !(h.contains(RepliconTick::new(m.tick)) && h.contains_any(RepliconTick::new(m.tick), RepliconTick::new(m.tick))) {
+                    return Err(Violation::new(
+                        "",
+                        "applied-tick-not-confirmed",
+                        format!(
+                            "client c{c} entity {}: the mutate message of tick {} was applied to it (history marker present) but its confirmation history (last tick {last}, mask {:#b}) denies that tick",
+                            fmt_bits(e.to_bits()),
+                            m.tick,
+                            h.mask()
+                        ),
+                    ));
+                }
+            }
+        }
+        Ok(())
+    }
+
     pub fn check_mutate_ticks(&self, c: usize, view: &ClientView) -> Result<(), Violation> {
         use bevy_replicon::{client::server_mutate_ticks::ServerMutateTicks, prelude::RepliconTick};
         if self.acks.format_unknown {
